@@ -95,8 +95,8 @@ class AstMap:
             new_list.append(value)
 
         x_table[key] = new_list
-        # A placeholder stands for a single identifier, whether it is used as a variable or as a function name
-        for other_table in (self.symbol_table, self.func_table):
+        # A placeholder stands for a single identifier, whether it is used as a variable, a function or a class name
+        for other_table in (self.symbol_table, self.func_table, self.class_table):
             if other_table is not x_table and key in other_table and key not in self.conflict_keys:
                 if any(value.id != other.id for other in other_table[key]):
                     self.conflict_keys.append(key)
